@@ -162,7 +162,8 @@ def relations_part(ck, tier):
         cases = [c for c in cases if c["id"] in keep]
     batches = [rest[i:i + 40] for i in range(0, len(rest), 40)] + [[c] for c in alone]
     real = {}
-    for r in pmap(real_relations, batches, procs=4, chunk=1):
+    # quick: in this process (forking workers costs more than the ~30 compilations)
+    for r in (map(real_relations, batches) if tier == "quick" else pmap(real_relations, batches, procs=4, chunk=1)):
         real.update(r)
 
     obs = {"unsound": [], "mirror": [], "refused_satisfiable": [], "unsound_unexplained": []}
@@ -431,7 +432,8 @@ def lattice_part(ck, tier, pairing):
         p = G.pairing_program(len(progs) + 1, case, extracted)
         progs.append(p)
         npair += 1
-    ck.cov["programs"] = {"generated": len(progs) - npair, "pairing": npair}
+    ck.cov["programs"] = len(progs)
+    ck.cov["program_counts"] = {"generated_and_core": len(progs) - npair, "pairing": npair}
     path = os.path.join(scratch(), "progs.json")
     spec = {}
     nbatch = 30
@@ -455,6 +457,7 @@ def lattice_part(ck, tier, pairing):
     results = pmap(real_program, items, procs=4, chunk=1)
 
     fam_stats = {}
+    dropped_why = []
     tot = dict(probes=0, feasible_probes=0, lost_probes=0, outside_base_probes=0, scenes=0, lost_scenes=0,
                refused_unsat=0, random_final_region=0, dropped=0)
     for p, rr in zip(progs, results):
@@ -475,6 +478,7 @@ def lattice_part(ck, tier, pairing):
             else:
                 tot["dropped"] += 1
                 ck.cov["dropped_by_generator"] += 1
+                dropped_why.append([p["id"], p["fam"], "does not compile without pruning either: " + rr["err_unpruned"][:120]])
             continue
         if rr["err_pruned"]:
             if rr["err_pruned"] == "TIMEOUT" or False:
@@ -520,6 +524,7 @@ def lattice_part(ck, tier, pairing):
             if ro is None or ro.get("unreadable"):
                 tot["dropped"] += 1
                 ck.cov["dropped_by_generator"] += 1
+                dropped_why.append([p["id"], p["fam"], f"object {oid}: region not readable as a fixed region"])
                 continue
             if ro.get("random_final_region"):
                 tot["random_final_region"] += 1
@@ -614,6 +619,7 @@ def lattice_part(ck, tier, pairing):
                        "legend": ". outside base, b base, i kept by the documented technique, F feasible",
                        "accepted_scenes_checked": rr.get("scenes", 0)})
     ck.cov["lattice"] = tot
+    ck.cov["dropped_examples"] = dropped_why[:12]
     ck.cov["families"] = fam_stats
     return tot
 
